@@ -159,6 +159,10 @@ let c17 toks =
                  { psr_name = bytes_of_string "s1"; psr_observable = true; psr_observe = pS_OBSERVE0; psr_subs = [] } ] in
       let fuel = c.psc_fuel in
       let fidx ch = match ch with 'd' -> 0 | 'o' -> 1 | _ -> 2 in
+      (* the memory image of a coap_proto_t value (little endian, as wide as the one of the run) *)
+      let proto_bytes (tok : string) : z list =
+        let n = int_of_string tok in
+        List.mapi (fun i _ -> z_of_int ((n lsr (8 * i)) land 255)) c.psc_proto in
       let rec parse_ev toks =
         match toks with
         | [] -> []
@@ -170,8 +174,12 @@ let c17 toks =
         | "N" :: nm :: tl -> Ev (PsEvNotify (bytes_of_tok nm)) :: parse_ev tl
         | "X" :: k :: tl -> Crash (int_of_string k) :: parse_ev tl
         | "W" :: f :: b :: tl -> WriteFile (PsBase (z_of_int (fidx f.[0])), bytes_of_tok b) :: parse_ev tl
+        | "UO" :: pr :: tl -> parse_ev_proto (proto_bytes pr) ("UA" :: tl)
+        | "UP" :: pr :: tl -> parse_ev_proto (proto_bytes pr) ("UR" :: tl)
+        | l -> parse_ev_proto c.psc_proto l
+      and parse_ev_proto (pr : z list) = function
         | "UA" :: key :: tup :: pkt :: osc :: tl ->
-            let o = { pso_key = bytes_of_tok key; pso_proto = c.psc_proto; pso_listen = c.psc_listen;
+            let o = { pso_key = bytes_of_tok key; pso_proto = pr; pso_listen = c.psc_listen;
                       pso_tuple = bytes_of_tok tup; pso_pkt = bytes_of_tok pkt;
                       pso_osc = (if osc = "~" then None else Some (bytes_of_tok osc)) } in
             Ev (PsEvRaw (ps_obs_added c.psc_la c.psc_lt fuel o)) :: parse_ev tl
@@ -180,7 +188,7 @@ let c17 toks =
         | "UT" :: nm :: v :: tl -> Ev (PsEvRaw (ps_cnt_track fuel (bytes_of_tok nm) (zi v))) :: parse_ev tl
         | "UC" :: nm :: tl -> Ev (PsEvRaw (ps_cnt_deleted fuel (bytes_of_tok nm))) :: parse_ev tl
         | "UR" :: nm :: pkt :: tl ->
-            Ev (PsEvRaw (ps_dyn_added fuel { psd_proto = c.psc_proto; psd_name = bytes_of_tok nm;
+            Ev (PsEvRaw (ps_dyn_added fuel { psd_proto = pr; psd_name = bytes_of_tok nm;
                                            psd_pkt = bytes_of_tok pkt })) :: parse_ev tl
         | "UX" :: nm :: tl ->
             Ev (PsEvRaw (ps_res_deleted fuel c.psc_dyn c.psc_cnt (bytes_of_tok nm))) :: parse_ev tl
